@@ -307,7 +307,8 @@ class Objects:
                 return RESPONSE_ERROR_PROPS
             if key[1] == "ResponseErrorMessage":
                 return [
-                    {"name": "id", "type": ID_TYPE, "optional": True,
+                    # base protocol, ResponseMessage.id: integer | string | null (null when the request could not be read)
+                    {"name": "id", "type": {"kind": "or", "items": ID_TYPE["items"] + [NULL_T]},
                      "_locus": "envelope:errid"},
                     {"name": "error", "type": {"kind": "reference", "name": "ResponseError"},
                      "_locus": "envelope:error", "_always": True},
